@@ -25,9 +25,9 @@ Section PANOC.
   Variable ls_fuel : nat.
 
   Notation run := (panoc psi_grad_full psi_yhat grad_L grad_psi lb ub l1 dir_apply has_initial stop_req time_up P x_in y_in Σ errz_in ls_fuel).
-  Notation Consistent := (consistent psi_grad_full psi_yhat grad_L lb ub l1 P).
+  Notation Consistent := (consistent psi_grad_full psi_yhat grad_L grad_psi lb ub l1 P).
   Notation Reachable := (reachable psi_grad_full psi_yhat grad_L grad_psi lb ub l1 dir_apply has_initial stop_req time_up P x_in y_in Σ errz_in ls_fuel).
-  Notation Check_iterate := (check_iterate grad_L P).
+  Notation Check_iterate := (check_iterate grad_L grad_psi P).
   Notation Glrel0 := (glrel0 psi_grad_full grad_psi P x_in).
   Notation Qub_ok := (qub_ok P).
   Notation Rec_ok := (rec_ok psi_grad_full psi_yhat grad_L grad_psi lb ub l1 P x_in).
@@ -35,8 +35,8 @@ Section PANOC.
   Notation Desc := (desc P).
   Notation Linit := (L_init psi_grad_full grad_psi P x_in).
   Notation Psi_hat_of := (psi_hat_of psi_grad_full psi_yhat P).
-  Notation Is_gradh := (is_gradh psi_grad_full grad_L P).
-  Notation Val_x := (val_x psi_grad_full psi_yhat grad_L P).
+  Notation Is_gradh := (is_gradh psi_grad_full grad_L grad_psi P).
+  Notation Val_x := (val_x psi_grad_full psi_yhat grad_L grad_psi P).
 
   (* (a)+(c)+(b)+(e): at EVERY evaluation of the stop check — after a completed iteration as well as after a line search that a stop
      request interrupted — the iterate the check looks at is consistent, satisfies the QUB test or has L >= L_max, has (γ, L) obtained
@@ -59,7 +59,7 @@ Section PANOC.
   (* hypothesis needed (and why): take_safe_step re-uses ψ(x̂ₖ), ∇ψ(x̂ₖ) = eval_grad_L(x̂ₖ, ŷ) as ψ(xₖ₊₁), ∇ψ(xₖ₊₁); they are "the values
      of eval_ψ_grad_ψ at xₖ₊₁" exactly when the problem's evaluation routes agree with each other *)
   Theorem PANOC_consistent_under_coherent_oracles : forall i : iterate (T:=R),
-    coherent psi_grad_full psi_yhat grad_L P -> Consistent i ->
+    coherent psi_grad_full psi_yhat grad_L grad_psi P -> Consistent i ->
     (ipsi i, igrad i) = psi_grad psi_grad_full (ix i) /\ (ihave i = true -> igradh i = snd (psi_grad psi_grad_full (ixh i))).
   Proof. exact (consistent_coherent psi_grad_full psi_yhat grad_L grad_psi lb ub l1 dir_apply has_initial stop_req time_up P x_in y_in Σ errz_in ls_fuel). Qed.
 
@@ -142,14 +142,14 @@ Section PANOC.
   Theorem PANOC_linesearch_terminates : forall (cL : R) (nL nT : nat) (q : list R) (τi : R),
     0 < cL -> p_Lmax P <= cL * 2 ^ nL -> 0 <= p_tau_factor P <= 1 -> p_tau_factor P ^ nT < p_tau_min P -> τi = 0 \/ τi = 1 ->
     forall (curr next : iterate (T:=R)) upd c st, iL curr = cL -> forall fuel, (ls_pass_bound nL nT <= fuel)%nat ->
-    ls_loop psi_grad_full psi_yhat grad_L lb ub l1 stop_req P fuel q τi
+    ls_loop psi_grad_full psi_yhat grad_L grad_psi lb ub l1 stop_req P fuel q τi
             (mkLs curr (set_gamma_L next (igam curr) (iL curr)) τi (- 1) upd false c st) <> LsFuel.
   Proof. exact (ls_terminates psi_grad_full psi_yhat grad_L grad_psi lb ub l1 dir_apply has_initial stop_req time_up P x_in y_in Σ errz_in ls_fuel). Qed.
   Theorem PANOC_pass_never_out_of_fuel : forall (nL nT : nat) s, Reachable s ->
     0 < Linit -> p_Lmax P <= Linit * 2 ^ nL ->
     0 <= p_tau_factor P <= 1 -> p_tau_factor P ^ nT < p_tau_min P ->
     (ls_pass_bound nL nT <= ls_fuel)%nat ->
-    pass psi_grad_full psi_yhat grad_L lb ub l1 dir_apply has_initial stop_req time_up P x_in y_in Σ errz_in ls_fuel s <> PFuel.
+    pass psi_grad_full psi_yhat grad_L grad_psi lb ub l1 dir_apply has_initial stop_req time_up P x_in y_in Σ errz_in ls_fuel s <> PFuel.
   Proof. exact (reachable_pass_never_out_of_fuel psi_grad_full psi_yhat grad_L grad_psi lb ub l1 dir_apply has_initial stop_req time_up P x_in y_in Σ errz_in ls_fuel). Qed.
 End PANOC.
 
